@@ -215,7 +215,14 @@ func (d *Driver) handleCallbacks(
 	verifYield("gcb.pre_select")
 
 	select {
-	case r := <-c:
+	case r, ok := <-c:
+		if !ok {
+			// the reading goroutine only leaves without a result (closing c) once the context is
+			// done; if we get here after that happened both cases of this select are ready and this
+			// one may be picked -- there is no result to dereference, it is the timeout
+			return nil, fmt.Errorf("%w: timeout handling callbacks", util.ErrTimeoutError)
+		}
+
 		if r.err != nil {
 			return nil, r.err
 		}
